@@ -77,7 +77,7 @@ Next ==
   \/ \E r \in Of("request") : RequestSerialize(r) \/ RequestDrop(r) \/ CreateLog(r, 0)
                               \/ (\E a \in Of("action") : CreateLog(r, a.id))
                               \/ SetRemoteAddr(r, 0) \/ (\E p \in Of("proxies") : SetRemoteAddr(r, p.id))
-  \/ \E k \in {"redirect", "filters", "empty"} : ActionCreate(k)
+  \/ \E k \in {"redirect", "filters", "empty", "nul"} : ActionCreate(k)
   \/ \E a \in Of("action") : ActionSerialize(a) \/ ActionStatus(a) \/ ActionLog(a) \/ ActionDrop(a)
                              \/ FilterCreate(a, 0) \/ (\E h \in Of("hmap") : FilterCreate(a, h.id) \/ HeaderFilter(a.id, h))
   \/ \E k \in {"empty", "two", "html", "bad"} : HmapCreate(k)
